@@ -47,6 +47,10 @@ def run(tier, seed):
     quick = tier != 'thorough'
     ngen = 24 if quick else 160
     items = ctrace.gather_programs(rng, ngen, corpus=('example', 'ok'), gen_kw=dict(maxdepth=2, maxstmts=3), base_args=())
+    from gen import prog as genprog
+    for i in range(6 if quick else 40):
+        sd = rng.randrange(1 << 30)
+        items.append(('cond:%d' % sd, genprog.gen_cond_program(sd)[1], []))
     # corpus files that carry their own "// args:" keep them; every program is crossed with the option sets
     optsets = OPTSETS_QUICK if quick else OPTSETS_THOROUGH
     if quick:
